@@ -422,7 +422,9 @@ def closure_program(draw, version='31'):
     pat = _sf(draw, ['for-list', 'for-list', 'for-map', 'curry', 'for-partial', 'static-partial', 'nested-for', 'let-in-for',
                      'reentrant', 'reentrant', 'hof-closures', 'compose-fold', 'focus-ref',
                      'empty-closure', 'empty-closure', 'empty-closure', 'focus-partial', 'focus-partial', 'focus-partial']
-             + (['callable'] * 5 if version == '31' else []))
+             + (['callable'] * 5 if version == '31' else []) + ['factory-via-ref'] * 4)
+    if pat == 'factory-via-ref':
+        return {'pattern': pat, 'ast': factory_via_ref_program(draw, g)}
     if pat == 'focus-ref':
         # references to context-dependent functions capture the focus of each evaluation
         name = _sf(draw, ['string', 'position', 'last', 'string'])
@@ -515,6 +517,50 @@ def closure_program(draw, version='31'):
     f = ['inline', [x], dep(g.int_(1, ((i, 'int'), (x, 'int'))))]
     return {'pattern': pat, 'ast': ['for', [[i, src]], ['let', [['f', f]], ['seq', ['dyn', ['var', 'f'], [g.lit_int()]],
                                                                             ['dyn', ['var', 'f'], [['var', i]]]]]]}
+
+
+def factory_via_ref_program(draw, g):
+    """a closure made by a factory (captures the factory's parameter $k) is passed as a bare function item, through a
+    named function reference f#n or fn:apply, to a higher-order builtin; $k is shadowed (or absent) at the call site"""
+    v31 = g.v == '31'
+    K, X = ['var', 'k'], ['var', 'x']
+    S = g.lit_seq(min_len=3)
+    kf = _sf(draw, [-1, -1, 2, 3, -2])
+    outer_k = _sf(draw, [1, 1, 0, 5])
+    hof = _sf(draw, (['sort', 'sort', 'sort', 'array:sort'] if v31 else []) + ['for-each', 'filter', 'fold-left', 'fold-right', 'for-each-pair'])
+    if hof in ('sort', 'array:sort', 'for-each'):
+        inner = ['inline', ['x'], ['arith', '*', X, K]]
+    elif hof == 'filter':
+        inner = ['inline', ['x'], ['vcmp', _sf(draw, _CMP), X, K]]
+    elif hof == 'fold-left':
+        inner = ['inline', ['a', 'x'], ['arith', '+', ['var', 'a'], ['arith', '*', X, K]]]
+    elif hof == 'fold-right':
+        inner = ['inline', ['x', 'a'], ['arith', '+', ['var', 'a'], ['arith', '*', X, K]]]
+    else:
+        inner = ['inline', ['x', 'y'], ['arith', '+', ['arith', '*', X, K], ['var', 'y']]]
+    mk = ['inline', ['k'], inner]
+    F = ['var', 'f']
+    src = ['array', list(S[1:]) if S[0] == 'seq' else [S]] if hof == 'array:sort' else S
+    if hof == 'array:sort' and S[0] == 'to':
+        src = ['array', [['int', 3], ['int', 1], ['int', 2]]]
+    args = {'sort': [src, ['empty'], F], 'array:sort': [src, ['empty'], F], 'for-each': [src, F], 'filter': [src, F],
+            'fold-left': [src, g.lit_int(), F], 'fold-right': [src, g.lit_int(), F],
+            'for-each-pair': [src, g.lit_seq(min_len=2), F]}[hof]
+    ref = ['ref', hof, len(args)]
+    via = _sf(draw, ['ref-var', 'ref-var', 'ref-direct', 'apply'] if v31 else ['ref-var', 'ref-direct'])
+    if via == 'ref-var':
+        call = ['dyn', ['var', 's'], args]
+    elif via == 'ref-direct':
+        call = ['dyn', ref, args]
+    else:
+        call = ['call', 'apply', [['var', 's'], ['array', args]]]
+    direct = ['call', hof, args]
+    shadow = draw(_upto(2))
+    binds = ([['k', ['int', outer_k]]] if shadow != 2 else []) + [['mk', mk], ['f', ['dyn', ['var', 'mk'], [['int', kf]]]], ['s', ref]]
+    body = ['seq', call, direct] if draw(_upto(1)) else call
+    if shadow == 1:      # a different $k bound right at the call site
+        body = ['for', [['k', ['seq', ['int', outer_k], ['int', outer_k + 1]]]], body]
+    return ['let', binds, body]
 
 
 def callable_program(draw, g):
